@@ -573,6 +573,58 @@ fn case(prop: u32, sub: &str, id: u64, ctx: &Ctx, r: &mut Report) {
                 }
             });
         }
+        // "from every state one step returns the reference output": states REACHED BY
+        // jump()/long_jump(), incl. word-coincidence states (c06::coincidence_state), whose
+        // image is handed to the reference model — a look-ahead or cache left over from
+        // the jump's internal stepping answers for the wrong state
+        "post_jump" => {
+            let ti = super::c06::JUMP_TYPES[p.below(12) as usize];
+            with_spec!(ti, S => {
+                if S::HAS_JUMP {
+                    let wb = word_bytes(S::FAMILY);
+                    let (mut class, mut seed) = gen_seed(&mut p, S::SEED_LEN, wb, false);
+                    let mut warm = p.below(4);
+                    // (matrix powers are not affordable in interpreter runs)
+                    if p.chance(1, 2) && !crate::util::REDUCED.load(std::sync::atomic::Ordering::Relaxed) {
+                        let o = super::c06::oracle_for(ti, r);
+                        if let Some((v, name)) = super::c06::coincidence_state(&o, S::SEED_LEN, wb, &mut p) {
+                            seed = v;
+                            class = name;
+                            warm = 0;
+                        }
+                    }
+                    let mut rng = S::from_seed(&seed);
+                    for _ in 0..warm { rng.next_u64(); }
+                    let jumps = p.range(1, 2);
+                    let mut how = Vec::new();
+                    for _ in 0..jumps {
+                        if p.chance(1, 2) { S::long_jump(&mut rng); how.push("long_jump"); } else { S::jump(&mut rng); how.push("jump"); }
+                    }
+                    if let Some(img) = S::bincode(&rng) {
+                        if img.iter().any(|&b| b != 0) {
+                            let mut model = RefModel::from_seed(S::NAME, &img);
+                            for k in 0..4 {
+                                let (got, want) = match S::FAMILY {
+                                    Family::W32 => (rng.next_u32() as u64, model.next()),
+                                    _ => (rng.next_u64(), model.next()),
+                                };
+                                r.eval();
+                                if got != want {
+                                    r.violation(format!("{}:output_after_jump", S::NAME), sub, id, json!({
+                                        "type": S::NAME, "seed": hex(&seed), "seed_class": class, "outputs_before": warm, "then": how,
+                                        "state_after_jump(image)": hex(&img), "position_after_jump": k,
+                                        "expected(reference from that state)": hx64(want), "observed": hx64(got)}));
+                                    return;
+                                }
+                            }
+                            r.cov("post_jump");
+                            r.cov(&format!("post_jump_class:{}", if class.starts_with("coincidence") { "coincidence" } else { "other" }));
+                            r.distinct(hkey(&[&"post_jump", &S::NAME, &seed]));
+                        }
+                    }
+                }
+            });
+        }
         // mixed-width access against the MODEL's word stream: next_u32 / next_u64 /
         // fill_bytes with large and unaligned destinations (bulk paths)
         "mixed" => {
@@ -794,6 +846,11 @@ pub fn run(prop: u32, ctx: &Ctx, only: Option<&Only>) -> Report {
     if prop == 2 {
         // 64 x 25 000 seeds in the quick tier
         total.merge(drive(ctx, "many_seeds", 64, secs * 0.1, |id, r| case(prop, "many_seeds", id, ctx, r)));
+    }
+    if prop == 1 {
+        total.merge(drive(ctx, "post_jump", ctx.n(6_000, 6_000), secs * 0.05, |id, r| case(prop, "post_jump", id, ctx, r)));
+        total.floor("post_jump", 1_000);
+        total.floor("post_jump_class:coincidence", 500);
     }
     ctx.progress("arith_boundary / wrap32 / model_boundary");
     if prop == 1 {
